@@ -48,3 +48,30 @@ package types
 //@ ensures err == nil && result == ext("bytes.Join", list(bytes(DirectOriginatorPrefix), absfn("tss.Hash", bytes(o.SourceChainID)), absfn("tss.Hash", bytes(o.Requester)), absfn("tss.Hash", bytes(o.Memo))), bytes(""))
 //@ func (o TunnelOriginator) Encode
 //@ ensures err == nil && result == ext("bytes.Join", list(bytes(TunnelOriginatorPrefix), absfn("tss.Hash", bytes(o.SourceChainID)), u64be(o.TunnelID), absfn("tss.Hash", bytes(o.DestinationChainID)), absfn("tss.Hash", bytes(o.DestinationContractAddress))), bytes(""))
+
+// callbacks of the module that owns a group (bandtss): they act on that module's state (and, through the tss keeper,
+// on member activity flags), never on signing or group records
+//@ func (cb TSSCallback) OnSigningFailed
+//@ trusted
+//@ modifies Other, Bank
+//@ func (cb TSSCallback) OnSigningCompleted
+//@ trusted
+//@ modifies Other, Bank
+//@ func (ams AssignedMembers) PubNonces
+//@ abstract
+
+// ---- C03: looking a member up in the assignment of an attempt -------------------------------------------
+// first assigned entry with that member id
+//@ spec amFirst(ams AssignedMembers, mid Int, j Int) Bool = 0 <= j && j < len(ams) && ams[j].MemberID == mid && (forall i :: 0 <= i && i < j ==> ams[i].MemberID != mid)
+//@ func (ams AssignedMembers) FindAssignedMember
+//@ pure
+//@ ensures result1 <==> (exists j :: 0 <= j && j < len(ams) && ams[j].MemberID == mid)
+//@ ensures result1 ==> (exists j :: amFirst(ams, mid, j) && result0 == ams[j])
+//@ loop 0: invariant forall i :: 0 <= i && i < #i ==> ams[i].MemberID != mid
+// the submitted R must equal the public nonce assigned to THAT member
+//@ func (ams AssignedMembers) VerifySignatureR
+//@ pure
+//@ ensures result <==> (exists j :: amFirst(ams, mid, j) && ext("bytes.Equal", r, ams[j].PubNonce))
+//@ loop 0: invariant forall i :: 0 <= i && i < #i ==> ams[i].MemberID != mid
+//@ func (ams AssignedMembers) MemberIDs
+//@ abstract
